@@ -342,6 +342,64 @@ def replay_api_potential(order):
     return {"violates": bool(bad), "failing": bad, "worst": worst}
 
 
+def replay_maxwell_space_kinds():
+    """Maxwell potentials are defined for div-conforming densities: RWG and BC spaces are accepted (the BC potential equals the potential of the RWG functions of the
+    barycentric grid with the coefficients dof_transformation c), SNC and RBC spaces (curl-conforming: n x RWG, n x BC) are rejected with ValueError."""
+    import warnings
+
+    import bempp_cl.api as api
+    from bempp_cl.api.operators.potential import maxwell as PM
+    from vlib import zoo as Z
+    from vlib import barycheck as BC
+
+    warnings.simplefilter("ignore")
+    g = Z.grid_with_domains("octa")
+    par = Z.params(3, 3)
+    pts = np.array([[2.1, -0.3], [0.2, 2.4], [0.5, 0.3]])
+    problems = []
+    rng = np.random.RandomState(8)
+    for name, k in (("electric_field", 1.3 + 0.2j), ("magnetic_field", 0.9)):
+        f = getattr(PM, name)
+        for kind in ("SNC", "RBC"):
+            try:
+                f(api.function_space(g, kind, 0), pts, k, parameters=par)
+            except ValueError:
+                continue
+            except Exception as ex:  # noqa
+                problems.append("%s on %s raises %s instead of ValueError" % (name, kind, type(ex).__name__))
+                continue
+            problems.append("%s accepts a %s space (curl-conforming) without error" % (name, kind))
+        bc = api.function_space(g, "BC", 0)
+        try:
+            c = rng.randn(bc.global_dof_count) + 1j * rng.randn(bc.global_dof_count)
+            vb = np.asarray(f(bc, pts, k, parameters=par).evaluate(api.GridFunction(bc, coefficients=c)))
+            rb = api.function_space(bc.grid, "RWG", 0)
+            # barycentric RWG with its own global dofs: express the BC function on the localised barycentric basis and map to the continuous one
+            T = BC.dense(bc.dof_transformation)
+            loc = T @ c
+            # independent route: sum of the potentials of the three local RWG functions of every barycentric element (localised space of the barycentric RWG space)
+            lsp = rb.localised_space
+            cl = np.zeros(lsp.global_dof_count, dtype=complex)
+            for b in range(bc.grid.number_of_elements):
+                for j in range(3):
+                    cl[lsp.local2global[b, j]] = loc[bc.local2global[b, j]] * (1 if bc.support[b] else 0)
+            vr = np.asarray(f(rb, pts, k, parameters=par).evaluate(api.GridFunction(rb, coefficients=np.linalg.lstsq(BC.dense(rb.map_to_localised_space), cl, rcond=None)[0])))
+            e = float(np.abs(vb - vr).max() / np.abs(vr).max())
+            if e > 1e-10:
+                problems.append("%s of a BC function differs from the potential of its barycentric RWG expansion by %.2e" % (name, e))
+        except ValueError as ex:
+            problems.append("%s rejects a BC space: %s" % (name, ex))
+    return {"violates": bool(problems), "problems": problems}
+
+
+def ob_maxwell_space_kinds():
+    r = replay_maxwell_space_kinds()
+    if r["violates"]:
+        return violated("Maxwell potential operators and space kinds: %s" % "; ".join(r["problems"]), witness={"problems": r["problems"]}, signature="maxwell-potential/space-kinds",
+                        replay={"callable": "checks.c08:replay_maxwell_space_kinds", "kwargs": {}, "confirmed": True})
+    return held("RWG / BC accepted (BC == its barycentric RWG expansion), SNC / RBC rejected with ValueError")
+
+
 def ob_api_potential(order):
     r = replay_api_potential(order)
     if r["violates"]:
@@ -389,6 +447,7 @@ def main():
     run.add("maxwell.finite-differences", "bounded", ob_maxwell_fd)
     for order in (2, 7):
         run.add("api-potential==kernel-sum[order %d]" % order, "bounded", ob_api_potential, order)
+    run.add("maxwell-potential.space-kinds", "bounded", ob_maxwell_space_kinds)
     run.bound("potential / Maxwell assembler contracts: <= 4 elements, 2 quadrature points, 2 evaluation points, generic values")
     run.bound("far-field limit: octahedron, r = 1e3, 1e4, k = 1.3 and 1.1+0.002i, three directions")
     run.bound("factory-made potentials: octahedron, 3 points, 6 (family, k) cases x 2 layers, explicit orders 2 and 7 (global default 4)")
